@@ -320,6 +320,12 @@ class JournalStorage(BaseStorage):
             log["datetime_complete"] = datetime.datetime.now().isoformat(timespec="microseconds")
 
         with self._thread_lock:
+            if state == TrialState.RUNNING:
+                # Forget what this worker claimed before so that the reply below tells whether
+                # *this* request moved the trial from WAITING to RUNNING.
+                self._replay_result._worker_id_to_owned_trial_id.pop(
+                    self._replay_result.worker_id, None
+                )
             self._write_log(JournalOperation.SET_TRIAL_STATE_VALUES, log)
             self._sync_with_backend()
 
